@@ -134,6 +134,10 @@ Rfc5p4Key == <<1, 3, 158, 138, 36, 116, 24, 227, 24, 144, 59, 33, 90, 132, 138, 
   165, 18, 118, 51, 38, 152, 10, 97, 93, 219, 241, 122, 5, 221, 252, 206, 126, 95, 179, 171, 204, 160, 90, 49, 176, 149, 116, 82, 212, 82, 30, 131,
   135, 7, 137, 6, 49, 21, 191, 151, 246, 195, 8, 204, 245, 124, 220, 156, 231, 254, 16, 246, 237, 27, 208, 204, 6, 96, 3, 140, 80, 220, 219, 15,
   235, 150, 60, 47, 23>>
+\* the bisecting comparison of Dnssec.tla is Bytes!LexLess (all strings of up to 4 octets over {0, 1, 255})
+Short == UNION { [1..n -> {0, 1, 255}] : n \in 0..4 }
+ASSUME LexLessBIsLexLess == \A a \in Short, b \in Short : LexLessB(a, b) = LexLess(a, b)
+
 KT(fl, pr, al, pk) == KeyTagOf([Flags |-> fl, Protocol |-> pr, Algorithm |-> al, PublicKey |-> pk])
 ASSUME KeyTagVectors ==
   /\ KT(256, 3, 5, Rfc5p4Key) = 60485
